@@ -18,7 +18,8 @@ THEOREMS = [_T + n for n in [
     "C20_untouched_fill", "C20_axes", "C20_values_length_rejected", "C20_scalar_value", "C20_box_centre_rule",
     "C20_general_cell", "C20_general_axes", "C20_general_values", "C20_general_box", "C20_point_cell",
     "C20_polygon_centre_rule", "C20_all_touched_adds", "C20_defaults", "C20_clamp_index",
-    "C20_box_cells_by_coordinates"]]
+    "C20_box_cells_by_coordinates", "C20_lattice_bin", "C20_lattice_point_bin", "C20_lattice_floor",
+    "C20_positional_call", "C20_bound_arguments", "C20_history_independent", "C20_poison_local"]]
 LEVEL_TEXT = ("Lean theorems over the index-space model of rasterize. Box model: a bounding box / time interval covers exactly "
               "the bins from the one containing its start (inclusive) to the one containing its end (exclusive) on each "
               "axis, in bin indices and end to end in terms of the template's coordinates (through C16's lookup with "
@@ -79,10 +80,17 @@ def _canon(r, inp):
     v = np.asarray(r.values)
     if v.ndim != 2 or not np.all(np.isfinite(v)):
         return {"raise": "crash:not-a-finite-2d-raster"}
+    memo = {}
+
+    def cell(x):                      # a raster holds few distinct numbers
+        x = float(x)
+        if x not in memo:
+            memo[x] = rat(x)
+        return memo[x]
     return {"val": {"dims": [str(getattr(d, "value", d)) for d in r.dims],
                     "time": [rat(float(c)) for c in r.coords["time"].values],
                     "freq": [rat(float(c)) for c in r.coords["frequency"].values],
-                    "grid": [[rat(float(x)) for x in row] for row in v]}}
+                    "grid": [[cell(x) for x in row] for row in v.tolist()]}}
 
 
 def _call(inp, geoms=None, all_touched=None, values=None):
@@ -106,8 +114,8 @@ def _holds_valid_request(ctx, inp, out):
 
 
 def _nontrivial(inp, out):
-    fill = frac(inp["fill"]) if inp.get("fill") is not None else 0
-    return (not is_err(out)) and any(frac(x) != fill for row in out["val"]["grid"] for x in row)
+    fill = rat(frac(inp["fill"])) if inp.get("fill") is not None else "0"
+    return (not is_err(out)) and any(x != fill for row in out["val"]["grid"] for x in row)
 
 
 # ---- monitor for general geometries: the real code only
@@ -383,6 +391,26 @@ def _tables(ctx):
     except Exception as e:  # noqa: BLE001 - the signature changed shape: the tie is not re-established
         ctx.pre_failed.append("rasterize_defaults")
         ctx.fail("obligation", "rasterize_defaults", detail=f"defaults of rasterize could not be extracted: {e!r}")
+    # the positional order of the parameters (C20_positional_call is about this order): the model's table must be
+    # the leading parameters of the signature, all positional-or-keyword; further parameters need defaults
+    try:
+        names = list(P)
+        kinds_ok = all(P[k].kind is inspect.Parameter.POSITIONAL_OR_KEYWORD for k in names[:8])
+        rest_ok = all(P[k].default is not inspect.Parameter.empty or P[k].kind in
+                      (inspect.Parameter.VAR_KEYWORD, inspect.Parameter.VAR_POSITIONAL) for k in names[8:])
+        model_order = ctx.model("param_order", {})
+        if not (kinds_ok and rest_ok):
+            raise ValueError(f"parameters are not all positional-or-keyword / optional: {names!r}")
+        if tuple(model_order[2:]) != tuple(B.OPTIONAL_ORDER):
+            raise ValueError("the harness passes positional arguments in another order than the model's table")
+        lst = "[" + ", ".join(json.dumps(str(n)) for n in names) + "]"
+        ctx.obligation("rasterize_params",
+                       f"theorem extracted_rasterize_params : SE.Raster.paramOrder = "
+                       f"List.take SE.Raster.paramOrder.length {lst} := by decide\n",
+                       {"table": "rasterize signature: parameter order", "value": repr(names)[:200]})
+    except Exception as e:  # noqa: BLE001 - the signature changed shape: the tie is not re-established
+        ctx.pre_failed.append("rasterize_params")
+        ctx.fail("obligation", "rasterize_params", detail=f"parameter order of rasterize could not be tied: {e!r}")
     m = getattr(data, "MAX_FREQUENCY", None)
     if isinstance(m, bool) or not isinstance(m, (int, float)) or m != m or m in (float("inf"), float("-inf")):
         ctx.pre_failed.append("MAX_FREQUENCY")
@@ -876,7 +904,12 @@ def _lattice_variants(coords, k, start, step):
     out = [("coord", c), ("decimal", lit), ("quot", start + k / (1 / step)), ("ulp-up", ulp_up(c)), ("ulp-down", ulp_down(c))]
     if k + 1 < len(coords):
         out.append(("centre", (c + coords[k + 1]) / 2))
-    return [(n, p) for n, p in out if p >= 0]
+    seen, uniq = set(), []
+    for n, p in out:                  # the decimal literal / quotient usually *are* the stored coordinate
+        if p >= 0 and p not in seen:
+            seen.add(p)
+            uniq.append((n, p))
+    return uniq
 
 
 def _lattice_cases(ctx, axes):
@@ -1196,21 +1229,30 @@ def _stage_histories(ctx):
 
 
 def run(ctx):
-    ctx.stage("corpus", ctx.run_corpus, OPS)
-    ctx.stage("tables", _tables, ctx)
-    ctx.stage("symbolic", _symbolic, ctx)
-    ctx.stage("discharge", ctx.discharge, ["SoundeventModel.Raster", "SoundeventModel.Tactics", "Proofs.C20"])
-    ctx.stage("rasterio-box-rule", _rasterio_contract, ctx)
-    ctx.stage("rasterio-point-rule", _point_contract, ctx)
-    ctx.stage("rasterize-exact", lambda: ctx.run_cases(OPS["rasterize"], _raster_cases(ctx, ctx.budget(6, 60))))
+    import time
+    walls = []
+
+    def stage(name, fn, *args):
+        t0 = time.time()
+        ctx.stage(name, fn, *args)
+        walls.append(f"{name} {time.time() - t0:.1f}")
+
+    stage("corpus", ctx.run_corpus, OPS)
+    stage("tables", _tables, ctx)
+    stage("symbolic", _symbolic, ctx)
+    stage("discharge", ctx.discharge, ["SoundeventModel.Raster", "SoundeventModel.Tactics", "Proofs.C20"])
+    stage("rasterio-box-rule", _rasterio_contract, ctx)
+    stage("rasterio-point-rule", _point_contract, ctx)
+    stage("rasterize-exact", lambda: ctx.run_cases(OPS["rasterize"], _raster_cases(ctx, ctx.budget(6, 60))))
     ctx.exhaustive["rasterize"] = "every template shape 1-8 x 1-8, both dimension orders"
-    ctx.stage("lattice-sweep", _stage_lattice, ctx)
-    ctx.stage("option-pairs", _stage_pairwise, ctx)
-    ctx.stage("rasterize-all-types", lambda: ctx.run_cases(OPS["rasterize_all"], _general_cases(ctx, ctx.budget(700, 12000))))
-    ctx.stage("edge-offsets", _stage_edges, ctx)
-    ctx.stage("size-thresholds", _stage_sizes, ctx)
-    ctx.stage("histories", _stage_histories, ctx)
-    ctx.stage("polygon-monitor", lambda: ctx.run_cases(OPS["raster_monitor"], _monitor_cases(ctx, ctx.budget(150, 3000))))
+    stage("lattice-sweep", _stage_lattice, ctx)
+    stage("option-pairs", _stage_pairwise, ctx)
+    stage("rasterize-all-types", lambda: ctx.run_cases(OPS["rasterize_all"], _general_cases(ctx, ctx.budget(700, 12000))))
+    stage("edge-offsets", _stage_edges, ctx)
+    stage("size-thresholds", _stage_sizes, ctx)
+    stage("histories", _stage_histories, ctx)
+    stage("polygon-monitor", lambda: ctx.run_cases(OPS["raster_monitor"], _monitor_cases(ctx, ctx.budget(150, 3000))))
+    ctx.note("stage wall times (s): " + ", ".join(walls))
 
 
 def search(ctx, failures):
